@@ -14,6 +14,7 @@ Tree (JSON lists)
     ["sel", arg, [[key, val], ...], default|None]    select_with(arg, {key: val}, default)   key = int (bit pattern /
                                                 enum position)
     ["aconst", arrname, i]  ["aidx", arrname, idx]   element of an array (env[arrname] = list of V)
+    ["conv", how, kind, W, x]                   how[T](x) with how in Signal / Temporary / Value (local conversion)
 
 Values: cv.ref.values.V plus kinds  'int' (Python int; run-time Integer when any operand is run-time) and
 'enum' (width = number of members, value = position).
@@ -138,6 +139,26 @@ class Ev:
     def _slice(self, t):
         a, rt = self.ev(t[3])
         return self._strict(lambda x: _unary("slice", x, {"h": t[1], "l": t[2]}), [a]), rt
+
+    def _conv(self, t):
+        """["conv", how, kind, W, x]: local conversion `Signal[T](x)` / `Temporary[T](x)` / `std.Value[T](x)`; value per the
+        C05 statement: Unsigned -> wider-or-equal Unsigned, Signed -> wider-or-equal Signed, Unsigned -> strictly
+        wider Signed keep the number, equal-width BitVector <-> Unsigned/Signed keep the bits; anything else UNSPEC."""
+        a, rt = self.ev(t[4])
+        k, w = t[2], t[3]
+
+        def f(x):
+            if x.kind not in rv.VEC:
+                return UNSPEC
+            if "bv" in (x.kind, k):
+                return rv.from_pattern(k, w, rv.pattern(x)) if x.width == w else UNSPEC
+            if x.kind == k:
+                return V(k, w, x.value) if x.width <= w else UNSPEC
+            if x.kind == "u" and k == "s":
+                return V(k, w, x.value) if x.width < w else UNSPEC
+            return UNSPEC
+
+        return self._strict(f, [a]), True
 
     def _dyn(self, t):
         (a, ra), (i, ri) = self.ev(t[1]), self.ev(t[2])
@@ -294,4 +315,7 @@ def selfcheck():
     assert ev(["mul", ["truncdiv", ["in", "a"], ["lit", 0]], ["in", "a"]]) == V("u", 6, None)
     assert ev(["eq", ["lt", ["in", "a"], ["lit", 6]], ["lnot", ["in", "d"]]]) == rv.boolean(False)
     assert static_type(["mul", ["in", "a"], ["in", "a"]], {"a": ("u", 3)}) == ("u", 6)
+    assert ev(["conv", "Signal", "s", 5, ["in", "a"]]) == V("s", 5, 5) and ev(["conv", "Value", "s", 4, ["in", "b"]]) == V("s", 4, -3)
+    assert ev(["conv", "Signal", "s", 3, ["in", "a"]]) is UNSPEC and ev(["conv", "Signal", "u", 4, ["in", "b"]]) is UNSPEC
+    assert ev(["conv", "Temporary", "s", 3, ["in", "c"]]) == V("s", 3, -3)
     assert static_type(["add", ["in", "a"], ["in", "b"]], {"a": ("u", 3), "b": ("s", 3)}) is None
